@@ -916,6 +916,19 @@ CHECKS['C11']['note'] = CHECKS['C11']['note'] + (
 NOT_YET = {}
 
 
+def findings_sentence(pid):
+    """Kept in sync with known_findings.json: the open findings (reported as KNOWN-FINDING, exit
+    0) and the number of repaired defects of this property."""
+    try:
+        d = json.load(open(os.path.join(HERE, 'known_findings.json')))
+    except Exception:
+        return ''
+    opn = sorted(f['id'] for f in d.get('findings', []) if f.get('property') == pid)
+    nfix = sum(1 for f in d.get('fixed', []) if 'property={} '.format(pid) in f)
+    return (' [known_findings.json: open findings of this property: {}; genuine defects of this '
+            'property repaired in /repo by fix: commits: {}.]'.format(', '.join(opn) or 'none', nfix))
+
+
 def main():
     props = [json.loads(l) for l in open(os.path.join(HERE, 'properties.jsonl'))]
     checks, na = [], []
@@ -932,7 +945,7 @@ def main():
                 'engine': 'lean4-model',
                 'level_claimed': {'category': 'proof', 'text': c['text'],
                                   'design_ref': 'DESIGN.md section ' + c['design']},
-                'level_note': COMMON_NOTE + c['note'],
+                'level_note': COMMON_NOTE + c['note'] + findings_sentence(pid),
                 'technique': c['technique'],
             })
         else:
